@@ -69,6 +69,9 @@ PARTIAL = ['"re-parsing the new text yields a tree that shows the same change": 
            '\\x{a}[b]{c}[d], which is read as three arguments and the text [d]) and for a slice to the empty list in front of a '
            'letter (exGlue: \\x{a}b -> \\xb); on the implementation the oracle explores the clause (key reparse-differs) only '
            'for lists of the readable form, names without a special role in the reader and fixpoint documents']
+# .args = for every strictly parsing representable input (Properties/AllInputs2.lean)
+LEAN_TARGETS = LEAN_TARGETS + ['TexSoupProofs.Properties.AllInputs2']
+THEOREMS = THEOREMS + ['TexSoup.C14.set_args_command_reparse_all', 'TexSoup.C14.set_args_environment_reparse_all']
 TRUSTED = ['hand-written model of the node edits (lean/TexSoupModel/Edit.lean), tied to TexSoup/data.py by the '
            'correspondence run only',
            'correspondence harness (props/c14.py, lib_edit.py): structural paths, node acquisition through .contents by '
